@@ -609,11 +609,47 @@ pub fn stateless_spec(r: &mut Rng) -> Spec {
     s
 }
 
+/// records whose split elements repeat across record boundaries while their parents differ, and objects
+/// that are `==` but list their members in a different order: per-record behaviour must not depend on
+/// the record processed just before
+fn gen_c11_parent_rows(r: &mut Rng, n: usize) -> Vec<V> {
+    let elems = [V::Int(1), V::Int(2), V::Obj(vec![("a".into(), V::Int(1)), ("b".into(), V::Int(2))]),
+                 V::Obj(vec![("b".into(), V::Int(2)), ("a".into(), V::Int(1))]), V::Str("x".into())];
+    (0..n)
+        .map(|i| {
+            let k = r.range(0, 3);
+            let items: Vec<V> = (0..k).map(|_| r.pick(&elems).clone()).collect();
+            V::Obj(vec![("id".into(), V::Int(i as i128)), ("keep".into(), V::Bool(r.chance(50))), ("k".into(), r.pick(&elems).clone()), ("items".into(), V::Arr(items))])
+        })
+        .collect()
+}
+
 pub fn gen_c11(r: &mut Rng, id: usize) -> Group {
     let u = key_universe_small();
-    let a = { let n_ = r.range(0, 20); gen_rows(r, n_, &u) };
-    let b = { let n_ = r.range(0, 20); gen_rows(r, n_, &u) };
-    let spec = stateless_spec(r);
+    let special = r.chance(25);
+    let a = if special { let n_ = r.range(1, 8); gen_c11_parent_rows(r, n_) } else { let n_ = r.range(0, 20); gen_rows(r, n_, &u) };
+    let b = if special { let n_ = r.range(1, 8); gen_c11_parent_rows(r, n_) } else { let n_ = r.range(0, 20); gen_rows(r, n_, &u) };
+    let spec = if special {
+        let mut s = Spec::default();
+        match r.below(3) {
+            0 => {
+                s.split = Some(".items".into());
+                s.filter = Some("^.keep".into());
+            }
+            1 => {
+                s.split = Some(".items".into());
+                s.filter = Some("(= ^.k .)".into());
+                s.selects.push("^.id=parent".into());
+            }
+            _ => {
+                s.filter = Some("(= (stringify .k) \"{\\\"a\\\": 1, \\\"b\\\": 2}\")".into());
+            }
+        }
+        s.selects.push(".=v".into());
+        s
+    } else {
+        stateless_spec(r)
+    };
     let mk = |name: &str, rows: &[V], r: &mut Rng| {
         let mut c = case(format!("C11-{id}-{name}"));
         c.spec = spec.clone();
@@ -677,8 +713,11 @@ pub fn gen_c12(r: &mut Rng, id: usize) -> Group {
         c.spec.selects.push(format!("(map .arr (push [] {x} {body}))=plain2"));
     }
     if r.chance(30) {
+        // every --select sees the same input and parents as the first one, also after --split-by
         c.spec.split = Some(".arr".into());
-        c.spec.selects.push("^.name=viaSplit".into());
+        let e = r.ps(&["^.name", "(concat ^.name \"!\")", "(map (push [] 1) ^^.name)", "(set \"q\" 1 ^.one)"]).to_string();
+        c.spec.selects.insert(0, format!("{e}=viaSplit0"));
+        c.spec.selects.push(format!("{e}=viaSplit"));
     }
     c.sources.push(stdin_src(rec.as_bytes().to_vec()));
     let mut g = Group::new(vec![c]);
@@ -762,9 +801,45 @@ pub fn gen_c13_cache(r: &mut Rng, id: usize) -> Group {
     g
 }
 
+/// C13, separators after bindings: `:var` and `@macro` arguments followed by a comma instead of a blank
+pub fn gen_c13_bindings(r: &mut Rng, id: usize) -> Group {
+    let (canon, respelled) = match r.below(6) {
+        0 => ("(+ :n .a)", "(+ :n, .a)"),
+        1 => ("(+ :n .a)", "(+ :n,.a)"),
+        2 => ("(| .a @inc @inc)", "(| .a, @inc, @inc)"),
+        3 => ("(push [] :n :s .a)", "(push [],:n,:s,.a)"),
+        4 => ("(map .l (+ :n .))", "(map .l, (+ :n, .))"),
+        _ => ("(? (= :n 5) @inc :s)", "(? (= :n, 5), @inc, :s)"),
+    };
+    let pos = r.below(3);
+    let mk = |name: &str, e: &str| {
+        let mut c = case(format!("C13-{id}-{name}"));
+        c.spec.sets.push("n=5".into());
+        c.spec.sets.push("s=\"str\"".into());
+        c.spec.sets.push("@inc=(+ . 1)".into());
+        match pos {
+            0 => c.spec.selects.push(format!("{e}=x")),
+            1 => c.spec.filter = Some(format!("(= {e} {e})")),
+            _ => c.spec.sorts.push(e.to_string()),
+        }
+        c.spec.utf8 = true;
+        c.sources.push(stdin_src(b"{\"a\":1,\"l\":[1,2]}\n{\"a\":-2,\"l\":[]}\n{\"l\":[7]}".to_vec()));
+        c
+    };
+    let cases = vec![mk("canon", canon), mk("respelled", respelled), mk("canon2", canon)];
+    let mut g = Group::new(cases);
+    g.tag = format!("{canon} ~ {respelled}");
+    g.nontrivial = true;
+    g.labels.push(format!("position:bindings{pos}"));
+    g
+}
+
 pub fn gen_c13(r: &mut Rng, id: usize) -> Group {
     if r.chance(20) {
         return gen_c13_cache(r, id);
+    }
+    if r.chance(10) {
+        return gen_c13_bindings(r, id);
     }
     // the same expression canonical vs respelled (alias, commas, padding, dot sugar), in the five positions
     let seed = r.next();
@@ -1083,12 +1158,21 @@ pub fn gen_c17(r: &mut Rng, id: usize) -> Group {
     // white-space separated (incl. CR, LF, CRLF), optionally noisy
     let mut text = String::new();
     let mut cuts: Vec<usize> = vec![];
+    let mut spans: Vec<(usize, usize)> = vec![];
+    let mut noisy = false;
     for v in &vals {
-        text.push_str(&value::render(v));
+        // jawk accepts raw control characters inside strings: a raw line feed there still is a line break
+        let mut t = value::render(v);
+        if r.chance(25) {
+            t = t.replace("\\n", "\n").replace("\\t", "\t");
+        }
+        spans.push((text.len(), text.len() + t.len()));
+        text.push_str(&t);
         text.push_str(r.ps(&[" ", "\n", "\r\n", "\n\n", "\t", " \n"]));
         cuts.push(text.len());
         if r.chance(10) {
             text.push_str("} ");
+            noisy = true;
         }
     }
     let bytes = text.clone().into_bytes();
@@ -1133,7 +1217,7 @@ pub fn gen_c17(r: &mut Rng, id: usize) -> Group {
     multi.sources = parts.iter().enumerate().map(|(i, b)| Source { name: Some(format!("part{i}.json")), bytes: b.clone() }).collect();
     let mut g = Group::new(vec![whole, one, rnd, file, multi]);
     g.values = vals;
-    g.tag = format!("files={k}");
+    g.tag = format!("files={k} noisy={} ooa={} spans={}", noisy as u8, ooa as u8, spans.iter().map(|(a, b)| format!("{a}-{b}")).collect::<Vec<_>>().join(","));
     g.nontrivial = text.matches('\n').count() >= 1 || k >= 2;
     g.labels.push(format!("files:{k}"));
     g
@@ -1645,7 +1729,7 @@ pub fn oracle(prop: &str, g: &Group, obs: &[Obs]) -> Option<String> {
                 return Some(format!("run gave {}", o.res));
             }
             for row in parse_rows(&o.out, "\n").ok()? {
-                for (x, y) in [("bound", "plain"), ("bound2", "plain2")] {
+                for (x, y) in [("bound", "plain"), ("bound2", "plain2"), ("viaSplit0", "viaSplit")] {
                     if get_key(&row, x) != get_key(&row, y) {
                         return Some(format!("{x} = {:?} but {y} = {:?}", get_key(&row, x).map(value::render), get_key(&row, y).map(value::render)));
                     }
@@ -1722,6 +1806,56 @@ pub fn oracle(prop: &str, g: &Group, obs: &[Obs]) -> Option<String> {
             for (i, o) in obs.iter().enumerate().take(3).skip(1) {
                 if o.res != whole.res || o.out != whole.out || o.err != whole.err {
                     return Some(format!("delivery {} changes the output", g.cases[i].id));
+                }
+            }
+            // ordinals and positions of the whole-stdin run, recomputed from the bytes (clean streams only)
+            let tag: std::collections::HashMap<&str, &str> = g.tag.split_whitespace().filter_map(|t| t.split_once('=')).collect();
+            if whole.res == "ok" && tag.get("noisy") == Some(&"0") {
+                let bytes = &g.cases[0].sources[0].bytes;
+                let spans: Vec<(usize, usize)> = tag.get("spans").map(|t| t.split(',').filter_map(|x| x.split_once('-')).filter_map(|(a, b)| Some((a.parse().ok()?, b.parse().ok()?))).collect()).unwrap_or_default();
+                let ooa = tag.get("ooa") == Some(&"1");
+                // offset of (line, col): col = 1 + bytes since the last line feed
+                let offset_of = |line: usize, col: usize| -> Option<usize> {
+                    let mut l = 1;
+                    let mut start = 0;
+                    for (i, b) in bytes.iter().enumerate() {
+                        if l == line { break }
+                        if *b == b'\n' { l += 1; start = i + 1; }
+                    }
+                    if l == line { Some(start + col - 1) } else { None }
+                };
+                let rows = parse_rows(&whole.out, "\n").ok()?;
+                let kept: Vec<(usize, usize)> = spans.iter().zip(&g.values).filter(|(_, v)| !ooa || matches!(v, V::Obj(_) | V::Arr(_))).map(|(s, _)| *s).collect();
+                if rows.len() != kept.len() {
+                    return Some(format!("{} rows for {} values", rows.len(), kept.len()));
+                }
+                let num = |row: &V, k: &str| -> Option<usize> { match get_key(row, k) { Some(V::Int(i)) => Some(*i as usize), _ => None } };
+                let mut prev_end: Option<(usize, usize)> = None;
+                for (k, (row, (a, b))) in rows.iter().zip(&kept).enumerate() {
+                    if num(row, "i") != Some(k) || num(row, "f") != Some(k) {
+                        return Some(format!("row {k}: &index / &index-in-file are {:?} / {:?}", num(row, "i"), num(row, "f")));
+                    }
+                    if get_key(row, "n").is_some() {
+                        return Some(format!("row {k}: &file-name is set for standard input"));
+                    }
+                    let (sl, sc, el, ec) = (num(row, "sl")?, num(row, "sc")?, num(row, "el")?, num(row, "ec")?);
+                    let (so, eo) = match (offset_of(sl, sc), offset_of(el, ec)) {
+                        (Some(x), Some(y)) => (x, y),
+                        _ => return Some(format!("row {k}: position {sl}:{sc}..{el}:{ec} is not in the input (lines are counted by line feeds)")),
+                    };
+                    if !(so <= *a && *b <= eo && eo <= *b + 1) {
+                        return Some(format!("row {k}: the range {sl}:{sc}..{el}:{ec} = bytes {so}..{eo} does not delimit the value's text at bytes {a}..{b}"));
+                    }
+                    if !ooa {
+                        if let Some(pe) = prev_end {
+                            if pe != (sl, sc) {
+                                return Some(format!("row {k}: starts at {sl}:{sc} but the previous range ended at {}:{}", pe.0, pe.1));
+                            }
+                        } else if (sl, sc) != (1, 1) {
+                            return Some(format!("the first range starts at {sl}:{sc}"));
+                        }
+                    }
+                    prev_end = Some((el, ec));
                 }
             }
             None
